@@ -23,13 +23,13 @@ CHECKS["C14"] = dict(
    technique="CBMC contract proofs: complete loop-free harnesses over symbolic page offsets + DFCC loop contracts with ghost indices")
 
 CHECKS["C16"] = dict(
-   text="Contract proofs, complete over every well-formed pool state (head chunk of any capacity/fill <= 2^48, optional older chunk, any policy state, both chunk policies): Malloc (with AddChunk/GetChunkBuffer inlined, ChunkSize by contract) returns null or an 8-aligned block wholly inside the head chunk directly behind what was handed out, or at the start of a fresh chunk; zero size -> null; its frame contains no chunk-buffer byte. Realloc: shrink keeps the pointer, growth is in place only for the last block with room in the head chunk, otherwise a Malloc block whose first bytes equal the old contents (ghost index); it writes only at or behind the old bump pointer. Two consecutive Mallocs are disjoint. ChunkSize >= request with defined clz/shift. Chunk-list walks (Clear/Size/Capacity), destructor and copy assignment (incl. self-assignment and assignment between copies) are bounded stand-ins over pools of <= 3 chunks.",
+   text="Contract proofs, complete over every well-formed pool state (head chunk of any capacity/fill <= 2^48, optional older chunk, any policy state, both chunk policies): Malloc (with AddChunk/GetChunkBuffer inlined, ChunkSize by contract) returns null or an 8-aligned block wholly inside the head chunk directly behind what was handed out, or at the start of a fresh chunk; zero size -> null; its frame contains no chunk-buffer byte. Realloc: shrink keeps the pointer, growth is in place only for the last block with room in the head chunk, otherwise a Malloc block whose first bytes equal the old contents (ghost index); it writes only at or behind the old bump pointer. Two consecutive Mallocs are disjoint. ChunkSize >= request with defined clz/shift. AlignBuffer (user-supplied buffer) yields a pointer-aligned tail of the buffer. Chunk-list walks (Clear/Size/Capacity), destructor and copy assignment (incl. self-assignment and assignment between copies) are bounded stand-ins over pools of <= 3 chunks.",
    design_ref="DESIGN.md section 5 (C16)",
    note="Trusted: CBMC, lowering, the BaseAllocator stub (null or fresh block; free), libc memcpy contract. Stated bound 2^48 on sizes/capacities. Constructors (member-initialiser lists), move operations and the locked-allocator option are not under contract. The last-block test in Realloc forms an out-of-object pointer that is only compared (observation job).",
    technique="CBMC function contracts enforced by DFCC on mechanically sliced member functions (loop-free: complete); bounded unwinding for list walks")
 
 CHECKS["C06"] = dict(
-   text="Growth contracts of the write buffer every emitter writes through (internal::Stack, lowered from stack.h): for every well-formed starting state (allocated with any capacity <= 2^38 and any fill incl. full and capacity 0; the all-null moved-from state) Reserve yields max(old, request) capacity in a block of SONIC_ALIGN(capacity) bytes, Grow(cnt) guarantees End()+cnt <= Begin()+Capacity() on both growth branches, and both preserve Size() and every content byte (ghost index); Push<char>, Push(s,n), Push5_8, PushSize, and Grow(k) followed by unchecked pushes of <= k bytes write only inside the capacity. Complete (loop-free) proofs. SerializeImpl itself is checked bounded (each goto back-edge at most once) against these growth contracts and the extent contracts of the emitters: every unchecked push is covered by the Reserve/Grow before it (6n+35 per string, 33 per number, 8 per literal, 3/2 per bracket, n+1 per raw value). Validity of the emitted text, parse-back equality and idempotence are NOT decided.",
+   text="Growth contracts of the write buffer every emitter writes through (internal::Stack, lowered from stack.h): for every well-formed starting state (allocated with any capacity <= 2^38 and any fill incl. full and capacity 0; the all-null moved-from state) Reserve yields max(old, request) capacity in a block of SONIC_ALIGN(capacity) bytes, Grow(cnt) guarantees End()+cnt <= Begin()+Capacity() on both growth branches, and both preserve Size() and every content byte (ghost index); Push<char>, Push(s,n), Push5_8, PushSize, and Grow(k) followed by unchecked pushes of <= k bytes write only inside the capacity; WriteBuffer::ToString writes its terminator inside the allocation and keeps length and contents. Complete (loop-free) proofs. SerializeImpl itself is checked bounded (each goto back-edge at most once) against these growth contracts and the extent contracts of the emitters: every unchecked push is covered by the Reserve/Grow before it (6n+35 per string, 33 per number, 8 per literal, 3/2 per bracket, n+1 per raw value). Validity of the emitted text, parse-back equality and idempotence are NOT decided.",
    design_ref="DESIGN.md section 5 (C06)",
    note="Trusted: CBMC, lowering, CBMC's realloc model with allocation failure excluded (the code asserts non-null). Stated preconditions: Reserve(n>=1); Grow(0) only with capacity >= 1 (otherwise realloc(p,0)). Pointer checks are off inside Grow and Size only (capacity test past the end of the block; Size() right after realloc); emitter extents for strings/integers are C09/C08.",
    technique="CBMC function contracts enforced by DFCC on mechanically sliced member functions (loop-free: complete)")
